@@ -1,5 +1,6 @@
 import OdakProofs.Lemmas.Kernels
 import OdakModel.Beam
+import OdakProofs.Lemmas.GenKernels
 import Mathlib.Analysis.SpecialFunctions.Sqrt
 import Mathlib.Analysis.Calculus.Deriv.Mul
 import Mathlib.Analysis.Calculus.Deriv.Add
@@ -86,5 +87,37 @@ theorem C04_gauss_beam_at_waist (w0 lam r2 : ℝ) (hw : 0 < w0) :
 
 example : (0 : ℝ) < 1 / 2 ∧ 0 ≤ asRadicand (1 / 2 : ℝ) 0 0 := by
   simp [asRadicand, num_sq]
+
+end Odak
+
+/-! ## The same statements for the kernels REGENERATED from the Python source on this run
+  (`OdakModel/Generated/WaveKernels.lean`, tied to the hand model by `OdakProofs/Lemmas/GenKernels.lean`). -/
+namespace Odak
+open Gen
+
+/-- the regenerated torch angular-spectrum kernel IS `exp(i z kz)` (forward branch) at every grid point -/
+theorem C04_gen_as_kernel_is_exp_i_z_kz (n m : Nat) (dx lam z : ℝ) (hl : lam ≠ 0) (i : Fin n) (j : Fin m) :
+    (asKernelT n m dx lam z).get i j = Cx.expi (z * kzOf lam (freq dx m j) (freq dx n i)) := by
+  rw [gen_asKernelT_eq]; exact C04_as_kernel_is_exp_i_z_kz n m dx lam z hl i j
+
+/-- the Fresnel transfer function AS THE SOURCE DEFINES IT NOW (torch: `k = wavenumber λ`; NumPy: the caller's `k`) has phase
+    `-(paraxialPhase …)`: it is the forward paraxial kernel for distance `-z` (finding F33).  Stated as an equation so that a
+    repaired sign in the source makes it fail. -/
+theorem C04_gen_tf_kernel_is_paraxial_kernel_of_minus_z (n m : Nat) (dx lam k z : ℝ) (i : Fin n) (j : Fin m) :
+    (tfKernelT n m dx lam z).get i j
+      = Cx.expi (paraxialPhase lam (wavenumber lam) (-z) (Num.sq (freq dx m j) + Num.sq (freq dx n i))) ∧
+    (tfKernelN n m dx lam k z).get i j
+      = Cx.expi (paraxialPhase lam k (-z) (Num.sq (freq dx m j) + Num.sq (freq dx n i))) := by
+  rw [gen_tfKernelT_eq, gen_tfKernelN_eq]
+  exact ⟨C04_tf_kernel_is_paraxial_kernel_of_minus_z n m dx lam _ z i j,
+    C04_tf_kernel_is_paraxial_kernel_of_minus_z n m dx lam k z i j⟩
+
+/-- the spatial impulse response the source builds inside NumPy `impulse_response_fresnel` is `1/(iλz)` times the Fresnel chirp
+    `exp(+i k r²/2z)` that the thin-lens phase cancels at `z = +f` (C04_lens_phase_cancels_chirp_at_plus_f) -/
+theorem C04_gen_np_ir_kernel_is_chirp (n m : Nat) (dx lam k z : ℝ) (i : Fin n) (j : Fin m) :
+    ∃ r2 : ℝ, (irKernelN n m dx lam k z).get i j = (⟨0, -(1 / (lam * z))⟩ : Cx ℝ) * irChirp k z r2 := by
+  rw [gen_irKernelN_eq]
+  simp only [npIrKernel, Grid.get_ofFn, irChirp]
+  exact ⟨_, rfl⟩
 
 end Odak
